@@ -126,6 +126,7 @@ class Engine:
         self._sx = {}
         self.int_mode = False
         self.lin_inc = False
+        self.const_generics = {}
         self.inc = None
         self.inc_n = 0
         self.portfolio = True
@@ -455,6 +456,8 @@ class Engine:
         m = re.fullmatch(r'(-?\d+)_(usize|u64|u32|u16|u8|isize|i64|i32|i16|i8)', v)
         if m:
             return int(m.group(1))
+        if v in self.const_generics:
+            return self.const_generics[v]
         if v in ('true', 'false'):
             return v == 'true'
         if v == '()':
@@ -857,7 +860,8 @@ class Engine:
             parts = split_top(inner, ';')
             if len(parts) == 2 and not split_top(inner)[1:]:
                 n = parts[1].strip()
-                cnt = int(re.match(r'(?:const )?(\d+)', n).group(1))
+                mcnt = re.match(r'(?:const )?(\d+)', n)
+                cnt = int(mcnt.group(1)) if mcnt else int(self.const_generics[n.replace('const ', '').strip()])
                 v = operand(parts[0])
                 return [deep_copy(v) for _ in range(cnt)]
             return [operand(x) for x in split_top(inner)]
@@ -872,7 +876,7 @@ class Engine:
             return RangeV(fl[0], fl[1], bool(m.group(1)))
         m = re.match(r'^([\w:]+?)(?:::<.*>)?::(\w+)\((.*)\)$', rv, re.S)
         if m and m.group(2)[:1].isupper():
-            return En(m.group(2), [operand(x) for x in split_top(m.group(3))])
+            return En(m.group(2), [operand(x) for x in split_top(m.group(3))], m.group(1).split('::')[-1])
         m = re.match(r'^([\w:]+?)(?:::<.*?>)? \{ (.*) \}$', rv, re.S)
         if m:
             fl = [operand(x.split(': ', 1)[1]) for x in split_top(m.group(2))]
@@ -880,11 +884,11 @@ class Engine:
             # enum struct-like variant?  Name::Variant { .. }
             segs = m.group(1).split('::')
             if len(segs) >= 2 and segs[-2][:1].isupper() and segs[-1][:1].isupper() and self.is_enum(segs[-2]):
-                return En(segs[-1], fl)
+                return En(segs[-1], fl, segs[-2])
             return Struct(name, fl)
         m = re.fullmatch(r'([\w:]+?)(?:::<.*>)?::(\w+)', rv, re.S)
         if m and m.group(2)[:1].isupper():
-            return En(m.group(2))
+            return En(m.group(2), (), m.group(1).split('::')[-1])
         m = re.fullmatch(r'[\w:]+(?:::<.*>)?', rv, re.S)
         if m:
             return Struct(rv.split('::')[-1], [])     # unit struct
@@ -906,8 +910,8 @@ class Engine:
         self._enum_cache[name] = found
         return found
 
-    def enum_variants(self, variant):
-        """ordered variant list of the crate enum that declares `variant`"""
+    def enum_variants(self, variant, ty=None):
+        """ordered variant list of the crate enum that declares `variant` (of the enum `ty` when given)"""
         import os
         for root, _d, files in os.walk(os.path.join(self.mir.repo, 'src')):
             for f in files:
@@ -917,12 +921,12 @@ class Engine:
                         body = re.sub(r'//[^\n]*', '', m.group(2))
                         body = re.sub(r'#\[[^\]]*\]', '', body)
                         vs = [re.match(r'\s*(\w+)', x).group(1) for x in split_top(body) if re.match(r'\s*(\w+)', x)]
-                        if variant in vs:
+                        if variant in vs and (ty is None or m.group(1) == ty):
                             return vs
         return None
 
     def variant_index(self, en):
-        vs = self.enum_variants(en.v)
+        vs = self.enum_variants(en.v, getattr(en, 'ty', None)) or self.enum_variants(en.v)
         if vs is None:
             raise Unsupported('unknown enum variant ' + en.v)
         return vs.index(en.v)
